@@ -331,6 +331,23 @@ func (e *Engine) verifyPass(fn *ssa.Function, c *Contract, pre map[string]string
 					env.vars[n] = v
 				}
 			}
+			// a source variable that is not in scope at this return stands for an arbitrary value: a clause that
+			// mentions it must hold whatever it is (so `guard ==> P(local)` is decided by the guard alone there)
+			single := localSingleDefs(fn)
+			for n, t := range localVarTypes(fn) {
+				if _, taken := env.vars[n]; taken {
+					continue
+				}
+				// assigned exactly once in the function: its value on the paths through that assignment (on other
+				// paths the term is unconstrained, i.e. arbitrary, as it should be)
+				if x, ok := single[n]; ok {
+					if v, ok := f.vals[x]; ok {
+						env.vars[n] = v
+						continue
+					}
+				}
+				env.vars[n] = tr.freshVal(t, "outofscope/"+n)
+			}
 		}
 		for i, cl := range c.Ensures {
 			t, err := env.boolExpr(cl.E)
@@ -542,7 +559,7 @@ func (tr *Tr) ghostFrames(f *Frame, c *Contract, args, binds []Val, rets []retRe
 	}
 	for _, gn := range e.db.GhostOrder {
 		g := e.db.Ghosts[gn]
-		if whole[gn] || g.Prop == "" {
+		if whole[gn] || g.Prop == "" || g.NoFrame {
 			continue
 		}
 		srt := ghostSort(g.Sort)
@@ -719,4 +736,59 @@ func (e *Engine) VerifyLemmas(prop string) *Tr {
 		f.addSite(l.Prop, lbl, "lemma", l.Src, "lemma", sNot(t))
 	}
 	return tr
+}
+
+// localVarTypes: names and types of the source-level local variables of fn (from debug references and named phis).
+func localVarTypes(fn *ssa.Function) map[string]types.Type {
+	out := map[string]types.Type{}
+	for _, b := range fn.Blocks {
+		for _, in := range b.Instrs {
+			switch x := in.(type) {
+			case *ssa.DebugRef:
+				if x.IsAddr {
+					continue
+				}
+				if v, ok := x.Object().(*types.Var); ok && v != nil {
+					if _, dup := out[v.Name()]; !dup {
+						out[v.Name()] = v.Type()
+					}
+				}
+			case *ssa.Phi:
+				if x.Comment != "" {
+					if _, dup := out[x.Comment]; !dup {
+						out[x.Comment] = x.Type()
+					}
+				}
+			}
+		}
+	}
+	return out
+}
+
+// localSingleDefs: source variables (by name) that denote one single SSA value everywhere in fn.
+func localSingleDefs(fn *ssa.Function) map[string]ssa.Value {
+	seen := map[string]map[ssa.Value]bool{}
+	for _, b := range fn.Blocks {
+		for _, in := range b.Instrs {
+			if x, ok := in.(*ssa.DebugRef); ok && !x.IsAddr {
+				if v, ok := x.Object().(*types.Var); ok && v != nil {
+					if seen[v.Name()] == nil {
+						seen[v.Name()] = map[ssa.Value]bool{}
+					}
+					seen[v.Name()][x.X] = true
+				}
+			}
+		}
+	}
+	out := map[string]ssa.Value{}
+	for n, vs := range seen {
+		if len(vs) == 1 {
+			for v := range vs {
+				if _, isConst := v.(*ssa.Const); !isConst {
+					out[n] = v
+				}
+			}
+		}
+	}
+	return out
 }
